@@ -796,6 +796,9 @@ func (fc *FnCtx) ghostUpdatesAfterCall(st *State, callee string, results []Val) 
 	if len(results) > 0 {
 		env.bound["result"] = results[0]
 	}
+	for i := range results {
+		env.bound[fmt.Sprintf("result%d", i)] = results[i]
+	}
 	for _, g := range ups {
 		if g.Name == "use" {
 			fc.useLemmaEnv(st, &Clause{E: g.E, Text: g.Text}, env)
